@@ -107,6 +107,18 @@ CHECKS = {
                 "digits, space, underscore; ASCII",
         "technique": "symbolic execution of the Python source on symbolic strings + SMT obligations per path, counterexample replay",
     },
+    "C20": {
+        "text": "xml_escape is executed on symbolic strings (every character symbolic over the special characters, the entity letters and "
+                "a generic other): the output is proved free of bare specials, every & proved to start a predefined entity, and a "
+                "reference entity decoder (validated against lxml in element content and both attribute quotings each run) proved to "
+                "read back the input. format_hms is executed on a symbolic duration (ms integer / k/1000 s / integer s up to 10^7 s); "
+                "the text decodes to literals and (term, spec) tokens which are proved to encode the duration rounded to the nearest "
+                "second with fields in 00..59 and the form chosen by the rounded value; ms and s inputs give the same text.",
+        "note": "ASCII alphabet with one generic 'other' character; string length <= 4 (quick) / 6 (thorough); C-level number rendering "
+                "is a token (term+spec); exact-real model of duration/1000.0; code that hands the symbolic string to a C-level matcher "
+                "(e.g. re) is reported INCONCLUSIVE, not decided",
+        "technique": "symbolic execution of the Python source on symbolic strings / rationals + SMT obligations per path, counterexample replay",
+    },
 }
 NOT_APPLICABLE = {}
 SEED_NOTES = ("Solver-based checking of the real code: every check symbolically executes the functions of /repo's "
